@@ -24,6 +24,8 @@ func c07Sequences(c *Ctx, rule string) {
 		cids[s.CID] = true
 		bySpec[fmt.Sprintf("%s/%d", s.Dir, s.CID)] = s
 	}
+	// two unregistered proprietary CIDs: without a registered size they carry no payload and may stand anywhere
+	cids[0x80], cids[0x85] = true, true
 	var all []int
 	for k := range cids {
 		all = append(all, k)
